@@ -31,12 +31,17 @@ Simplifications vs DESIGN.md: "killed mid-extraction" is emulated by the shim (e
 rolled back to a prefix and the parent is killed) instead of a timing-based kill, to stay
 deterministic.  Non-SyncError exception *types* of failed runs are not judged (the statement is
 about the tree).
+
+Bucket keys: `<first|resync>:<state of the repository path>@<event>:<role>[-><role>]:<mode>` for a bad
+intermediate state (roles: base = repository path, update / old = the staging directories, dl = download
+temp file), `<phase>:second-sync-failed:stale-<leftovers>:path-<state>` and
+`<phase>:second-sync-wrong-tree:<state>:stale-<leftovers>` for the follow-up sync.
+Development aid: VF_C47_ONLY=good|bad limits the plan.
 """
 import hashlib
 import http.server
 import io
 import os
-import re
 import shutil
 import stat
 import tarfile
